@@ -37,10 +37,10 @@ type c15Env struct {
 
 var c15Sources = map[string]string{
 	"ok.p":     "add_key(k, 1)\nx = 5\nadd_key(y, x)\nset_measurement(\"mm\")\n",
-	"loop.p":   "for i in [1, 2, 3] {\n add_key(k, i)\n if i == 2 { p(1 / zz) }\n}\n",
-	"exit.p":   "x = 1\nfor i in [1, 2] { if i == 1 { if true { add_key(e, i)\nexit() } } }\nadd_key(after, 1)\n",
+	"loop.p":   "secret = \"leaked-by-loop\"\nsecret2 = [9]\nfor i in [1, 2, 3] {\n inner = i\n add_key(k, i)\n if i == 2 { p(1 / zz) }\n}\n",
+	"exit.p":   "x = 1\nsecret = \"leaked-by-exit\"\nfor i in [1, 2] { if i == 1 { if true { inner = 7\nadd_key(e, i)\nexit() } } }\nadd_key(after, 1)\n",
 	"setv.p":   "secret = 42\nsecret2 = [1, 2]\n_ = \"shadowed message\"\nadd_key(done, 1)\n",
-	"readv.p":  "add_key(leak, secret)\nadd_key(leak2, secret2)\nadd_key(msgcopy, _)\nif secret == nil { add_key(clean, true) }\n",
+	"readv.p":  "add_key(leak, secret)\nadd_key(leak2, secret2)\nadd_key(leak3, inner)\nadd_key(leak4, i)\nadd_key(leak5, x)\nadd_key(msgcopy, _)\nif secret == nil { add_key(clean, true) }\n",
 	"grok.p":   "add_pattern(\"wd\", \"[a-z]+\")\nok = grok(_, \"%{wd:w} %{INT:n:int}\")\nadd_key(ok)\nuse(\"ok.p\")\n",
 	"retag.p":  "drop_key(t1)\nset_tag(f1)\nadd_key(t1, \"now field\")\nrename(g, f1)\ncast(f2, \"str\")\n",
 	"spin.p":   "n = 0\nfor ;; { n = n + 1\nadd_key(n) }\n",
